@@ -247,7 +247,7 @@ theorem outUtxo_some {P : Params} {cb : Bool} {h : Nat} {o : Out} {u : Utxo} (hu
 /-! ### one transaction: detach after attach restores every key (up to ValidHeight) -/
 
 theorem detachTx_attachTx (P : Params) (h : Nat) (t : Tx) (db : DB)
-    (hv : validTxB P t db = true) (hn : noOwnedVoteB P t = true) :
+    (hv : validTxB P t db = true) :
     CoreEq (detachTx P (attachTx P h db t) t) db := by
   intro id
   unfold detachTx attachTx
@@ -257,7 +257,7 @@ theorem detachTx_attachTx (P : Params) (h : Nat) (t : Tx) (db : DB)
   set x0 := dbGet id db with hx0
   set A1 := (t.ins.filterMap inUtxo).filterMap (fun u => if P.p2w u.prog then some (DbOp.del u.id) else none) with hA1
   set A2 := ((t.outs.filterMap (outUtxo P t.coinbase h)).filterMap (owned P)).map DbOp.put with hA2
-  set D1 := t.outs.filterMap (fun o => if o.kind == 0 && P.p2w o.prog then some (DbOp.del o.id) else none) with hD1
+  set D1 := t.outs.filterMap (fun o => if P.p2w o.prog then some (DbOp.del o.id) else none) with hD1
   set D2 := ((t.ins.filterMap inUtxo).filterMap (owned P)).map DbOp.put with hD2
   have dA1 : ∀ op ∈ A1, isDel op := by
     intro op hop
@@ -306,25 +306,20 @@ theorem detachTx_attachTx (P : Params) (h : Nat) (t : Tx) (db : DB)
       · cases hoo
     · rw [effect_untouched id D1 _ (fun op hop hk => tD1 ⟨op, hop, hk⟩)]
       by_cases tA2 : ∃ op ∈ A2, key op = id
-      · -- an owned output that detach does not delete: only an owned vote output — excluded
+      · -- an owned output is P2W, so detach deletes it: contradiction
         exfalso
         obtain ⟨op, hop, hk⟩ := tA2
         simp only [hA2, List.mem_map, List.mem_filterMap] at hop
         obtain ⟨u', ⟨u, ⟨o, ho, hou⟩, hown⟩, rfl⟩ := hop
         simp only [key] at hk
-        obtain ⟨hid1, hprog, hkind⟩ := outUtxo_some hou
-        obtain ⟨hid2, hp2w, hownr⟩ := owned_id hown
-        rw [hprog] at hp2w hownr
-        rcases hkind with hk0 | hk1
-        · apply tD1
-          refine ⟨DbOp.del o.id, ?_, ?_⟩
-          · simp only [hD1, List.mem_filterMap]
-            exact ⟨o, ho, by simp [hk0, hp2w]⟩
-          · simp only [key]; rw [← hid1, ← hid2]; exact hk
-        · unfold noOwnedVoteB at hn
-          simp only [List.all_eq_true] at hn
-          have := hn o ho
-          simp [hk1, hp2w, hownr] at this
+        obtain ⟨hid1, hprog, _⟩ := outUtxo_some hou
+        obtain ⟨hid2, hp2w, _⟩ := owned_id hown
+        rw [hprog] at hp2w
+        apply tD1
+        refine ⟨DbOp.del o.id, ?_, ?_⟩
+        · simp only [hD1, List.mem_filterMap]
+          exact ⟨o, ho, by simp [hp2w]⟩
+        · simp only [key]; rw [← hid1, ← hid2]; exact hk
       · rw [effect_untouched id A2 _ (fun op hop hk => tA2 ⟨op, hop, hk⟩)]
         by_cases tA1 : ∃ op ∈ A1, key op = id
         · rw [effect_all_del id A1 _ dA1 tA1]
@@ -354,26 +349,24 @@ theorem detachTx_attachTx (P : Params) (h : Nat) (t : Tx) (db : DB)
 /-! ### a block -/
 
 theorem detach_attach_txs (P : Params) (h : Nat) : ∀ (txs : List Tx) (db : DB),
-    validTxsB P h txs db = true → (∀ t ∈ txs, noOwnedVoteB P t = true) →
+    validTxsB P h txs db = true →
     CoreEq (txs.reverse.foldl (detachTx P) (txs.foldl (attachTx P h) db)) db := by
   intro txs
   induction txs with
-  | nil => intro db _ _; exact CoreEq.refl _
+  | nil => intro db _; exact CoreEq.refl _
   | cons t r ih =>
-    intro db hv hn
+    intro db hv
     simp only [validTxsB, Bool.and_eq_true] at hv
     simp only [List.reverse_cons, List.foldl_append, List.foldl_cons, List.foldl_nil]
-    have h1 := ih (attachTx P h db t) hv.2 (fun t' ht' => hn t' (List.mem_cons_of_mem _ ht'))
+    have h1 := ih (attachTx P h db t) hv.2
     have h2 : CoreEq (detachTx P (r.reverse.foldl (detachTx P) (r.foldl (attachTx P h) (attachTx P h db t))) t)
         (detachTx P (attachTx P h db t) t) := applyOps_congr _ h1
-    exact h2.trans (detachTx_attachTx P h t db hv.1 (hn t (List.mem_cons_self)))
+    exact h2.trans (detachTx_attachTx P h t db hv.1)
 
 theorem detach_attach_block (P : Params) (b : Block) (db : DB)
-    (hv : validBlockB P b db = true) (hn : noOwnedVoteBlockB P b = true) :
+    (hv : validBlockB P b db = true) :
     CoreEq (detach P b (attach P b db)) db := by
   unfold detach attach
-  unfold noOwnedVoteBlockB at hn
-  simp only [List.all_eq_true] at hn
-  exact detach_attach_txs P b.height b.txs db hv hn
+  exact detach_attach_txs P b.height b.txs db hv
 
 end BytomModel.Lemmas.Wallet
